@@ -297,6 +297,26 @@ def check_direct(acc, chain_l):
                 break
         acc.state(('direct', menu.chain_name(chain_l), locking))
         acc.outcomes[('direct', len(m.elements), locking)] += 1
+        # the user keeps ONLY the powertrain (a factory function returning it): it still is the whole chain
+        import gc
+
+        def factory():
+            els = [sim.make_element(e, f"{e['k']}{i}") for i, e in enumerate(spec['elements'])]
+            for i, link in enumerate(spec['links']):
+                sim.declare(els[i], els[i + 1], link)
+            els[-1].external_torque = lambda time, angular_position, angular_speed: Torque(0, 'Nm')
+            return Powertrain(motor=els[0]), [e.name for e in els]
+        pt2, names = factory()
+        gc.collect()
+        acc.transitions += 1
+        try:
+            got = [e.name for e in pt2.elements]
+            linked = all(a.drives is b and b.driven_by is a for a, b in zip(pt2.elements, pt2.elements[1:]))
+        except Exception as ex:
+            got, linked = repr(ex)[:120], False
+        if got != names or not linked or pt2.self_locking is not locking:
+            acc.violation('C20/direct/only-powertrain-kept', 'the powertrain consists of exactly the elements reachable from its motor, in order', case,
+                          {'got': got, 'ref': names, 'links_intact': linked, 'flag': pt2.self_locking})
 
 
 def check_flag_source(acc):
